@@ -415,7 +415,7 @@ func runC20(r *ev.Run) {
 		}
 	})
 	// shuffleIndex is a permutation of [0,n) for EVERY n up to the bound
-	maxN := ev.Pick(r, 4096, 32768)
+	maxN := ev.Pick(r, 3000, 32768)
 	ev.Parallel(maxN, func(wk, item int) {
 		n := item + 1
 		seen := make([]uint32, n)
@@ -473,7 +473,7 @@ func runC20(r *ev.Run) {
 	})
 	// the I/O path with the real 32 MiB read buffer
 	fail := func(class string, c c20Case, msg string) { r.Fail(class, c, "%s", msg) }
-	files, ranges := c20FileFamily(ev.Pick(r, 150, 300), ev.Pick(r, 14, 24), []int{0, 1, 7}, []int{6249, 6250, 6251, 100001}, 0, fail, r.Expired)
+	files, ranges := c20FileFamily(ev.Pick(r, 100, 300), ev.Pick(r, 10, 24), []int{0, 1, 7}, []int{6249, 6250, 6251, 100001}, 0, fail, r.Expired)
 	// a file larger than the read buffer: lines straddle the refill
 	c20BigFile(r)
 	// the refill logic with small read buffers (overlay builds of the same harness)
